@@ -916,3 +916,8 @@ if _os.path.exists(_RK11_2):
          ("patch", _RK11_2),
          ("sub", "onedgrid.py", "    return _gstrip(rho, grid.points), _dergstrip(rho, grid.points) * grid.weights\n",
           "    return _gstrip(rho, grid.points), _gstrip(rho, grid.points) * grid.weights\n"))
+_RK11_5 = _os.path.join(_os.path.dirname(_os.path.dirname(_os.path.abspath(__file__))), "refactors", "RK11-5", "patch.diff")
+if _os.path.exists(_RK11_5):
+    fire("C03", "derivatives gathered by a comprehension over bound methods in the wrong order", "R7.inverse-function-theorem",
+         ("patch", _RK11_5),
+         ("sub", "rtransform.py", "(self.deriv, self.deriv2, self.deriv3)[:order]", "(self.deriv, self.deriv3, self.deriv2)[:order]"))
